@@ -45,7 +45,7 @@ for i in (1, 2, 3):
                 for l in rec["checks"][c]["first"]:
                     print("   ", l[:500])
     finally:
-        sh("git -C /repo checkout -- .")
+        sh("git -C /repo checkout -- . && git -C /repo clean -fdq src tests")
     d = os.path.join("/verif/seeded/benign", "%s-%d" % (tag, i))
     os.makedirs(d, exist_ok=True)
     shutil.copy(patch, os.path.join(d, "patch.diff"))
